@@ -5,6 +5,8 @@ CONSTANTS
   FixedWidths <- Widths
   MaxCell = 4
   StripBeforeEmptyGuard = TRUE
+  BlankCellSkipsCharGuard = TRUE
+  StripsBlanksOnly = TRUE
 INVARIANT TypeOK
 INVARIANT GuardsHold
 INVARIANT Emit
